@@ -90,3 +90,18 @@ func HarnessSessionGC() {
 	vAssert(okA == !a.ExpiresAt.Before(now), "c20.gc-removed-wrong-session")
 	vAssert(okB == !b.ExpiresAt.Before(now), "c20.gc-removed-wrong-session")
 }
+
+// C15: two requests carrying the same session cookie (sliding extension writes ExpiresAt).
+func HarnessRaceSession() {
+	s := CreateSession(1)
+	s.ExpiresAt = time.Now().Add(extendThreshold / 2) // inside the extension window
+	vClockFreeze(true)
+	vRaceBegin()
+	vInterpose(func() { SessionFromRequest(reqWithCookie(s.ID, true)) }, 1)
+	SessionFromRequest(reqWithCookie(s.ID, true))
+	vInterpose(nil, 0)
+	vRaceEnd()
+	if vInterposed() > 0 {
+		vReach("pair-ran")
+	}
+}
